@@ -522,9 +522,11 @@ def _translate_yarrrml_to_rml(yarrrml_mapping):
 
         ####################### GRAPHS ####################
         if 'graphs' in mapping_value:
-            graph_bnode = rdflib.BNode()
-            mapping_graph.add((triples_map_iri, rdflib.term.URIRef(RML_GRAPH_MAP), graph_bnode))
-            mapping_graph = _add_template(mapping_graph, graph_bnode, mapping_value['graphs'])
+            graphs = mapping_value['graphs'] if type(mapping_value['graphs']) is list else [mapping_value['graphs']]
+            for graph in graphs:
+                graph_bnode = rdflib.BNode()
+                mapping_graph.add((triples_map_iri, rdflib.term.URIRef(RML_GRAPH_MAP), graph_bnode))
+                mapping_graph = _add_template(mapping_graph, graph_bnode, graph)
 
         ####################### PREDICATE OBJECTS ############
         if 'predicateobjects' in mapping_value:
